@@ -37,7 +37,8 @@ META = {
     "technique": "TLA+ function specification (CTypes/CLit), TLC-enumerated cases replayed into cppcheck --dump, TLC-computed verdict, clang second witness",
 }
 
-QUICK_PLATFORMS = ["native", "win64", "unix32"]
+# quick: LP64 and LLP64 in both languages (the rule that differs between them), ILP32 in C++ only
+QUICK_SHARDS = [("native", "c"), ("native", "c++"), ("win64", "c"), ("win64", "c++"), ("unix32", "c++")]
 ALL_PLATFORMS = ["native", "unix32", "unix64", "win32A", "win32W", "win64"]
 LANGS = ["c", "c++"]
 BATCH = 1000
@@ -107,9 +108,9 @@ def group_violations(shards):
     return out
 
 
-def run(platforms, langs):
-    if "native" in platforms and not cprobe.host_is_lp64_linux():
-        platforms = [p for p in platforms if p != "native"]
+def run(pairs):
+    if not cprobe.host_is_lp64_linux():
+        pairs = [pl for pl in pairs if pl[0] != "native"]
     cprobe.private_cppcheck()
 
     def task(t):
@@ -117,7 +118,7 @@ def run(platforms, langs):
             return vlib.tlc_must_pass("CIntLaws", "Empty.cfg", workers=1, timeout=900, xmx="2g")
         return run_shard(t)
 
-    res = cprobe.pmap(task, ["laws"] + [(p, l) for p in platforms for l in langs], workers=cprobe.WORKERS + 1)
+    res = cprobe.pmap(task, ["laws"] + list(pairs), workers=cprobe.WORKERS + 1)
     return res[1:]
 
 
@@ -126,8 +127,7 @@ def main(tier, seed, replay=None):
     vlib.build()
     if replay:
         return do_replay(replay)
-    platforms = QUICK_PLATFORMS if tier == "quick" else ALL_PLATFORMS
-    shards = run(platforms, LANGS)
+    shards = run(QUICK_SHARDS if tier == "quick" else [(p, l) for p in ALL_PLATFORMS for l in LANGS])
     violations = group_violations(shards)
     rc, new, known = vlib.verdict(PID, violations)
     tot = {}
@@ -170,7 +170,7 @@ def main(tier, seed, replay=None):
 
 def do_replay(path):
     payload = json.load(open(path))
-    shards = run([payload["platform"]], [payload["lang"]])
+    shards = run([(payload["platform"], payload["lang"])])
     vs = [v for v in group_violations(shards) if ":%s:" % payload["rule"] in v["key"]]
     for v in vs:
         print("REPRODUCED key=%s %s" % (v["key"], v["what"]))
